@@ -16,13 +16,15 @@ REQUIRED += ["DaeVerif.C16.Props." + n for n in [
     "kernel_key_injective", "kernel_key_slots",
     "reload_snapshot_drops_counters", "reload_hands_over_state", "reload_floor_leaves_selectable",
     "reload_leaves_every_group_selectable", "handover_matches_per_group", "handover_unmatched_node_untouched", "reload_old_order_leaves_group_empty", "kernel_callback_guards", "kernel_map_changed_only_by_live_report", "kernel_map_untouched_by_wiring_and_retirement",
-    "kernel_map_is_last_live_report_partial",
+    "kernel_map_is_last_live_report_in_step", "kernel_map_follows_newest_live_group", "kernel_map_last_writer",
+    "reload_leaves_every_group_selectable_by_select", "captured_fallback_is_listed",
+    "probe_loop_runs_exactly_the_table", "probe_loop_never_revives_data_udp", "probe_loop_order_irrelevant",
 ]]
 
 PKG = "component/outbound/dialer"
 
 
-_MARKS = ["N[", " T[", " G[", " E[", " S[", " K[", " P[", " M["]
+_MARKS = ["N[", " T[", " G[", " E[", " S[", " K[", " P[", " H[", " M["]
 
 
 def _fields(line):
@@ -162,6 +164,8 @@ def main_canon(line):
     - escalation marker dropped (observed through a log line; its effect is in N/T);
     - sets: registered flag, member SET, best node present or not (slice order, sorting latencies and
       the identity of the best node belong to C15)."""
+    if line.startswith("F["):
+        return "F"   # a captured reload fallback: judged by capture_oracle (membership), not by equality with the model
     if not line.startswith("N["):
         return line
     f = _fields(line)
@@ -195,6 +199,13 @@ def main_canon(line):
                 last[k] = v[0]
         g = ",".join(f"{k}={v}" for k, v in sorted(last.items(), key=lambda kv: [int(t) for t in kv[0].split(".")]))
     return f"N[{';'.join(ns)}] T[{tstr}] G[{g}] S[{';'.join(ss)}] K[{f['K']}] P[{f['P']}]"
+
+
+def probe_canon(line):
+    """probe-loop stream: main_canon plus the endpoint hit counters of the iteration"""
+    if not line.startswith("N["):
+        return line
+    return main_canon(line) + " H[" + _fields(line).get("H", "") + "]"
 
 
 def kernel_canon(line):
@@ -304,6 +315,36 @@ def reload_oracle(kop_lines, kimpl_lines, report, max_reports=3):
                                 "scenario_ops": [o for o in kop_lines[max(0, i - 120):i + 1]]})
                     n_rep += 1
     return n_checked, n_rep
+
+
+def capture_oracle(op_lines, impl_lines, model_lines, report, max_reports=3):
+    """CaptureReloadSelectionFallback of latency-policy groups: whatever candidate the real function records for a
+    network type must be a MEMBER of that group (the floor revives it to keep the group selectable); how it is
+    chosen among the members is not the property's business - agreement with Model.captureFallback (the node the
+    group would select: own set, data-UDP -> DNS-UDP -> TCP chain, other family) is counted, not required."""
+    groups, n, agree, n_rep = {}, 0, 0, 0
+    for i, (op, im) in enumerate(zip(op_lines, impl_lines)):
+        w = op.split()
+        if not w:
+            continue
+        if w[0] == "scenario":
+            groups = {}
+        elif w[0] == "group":
+            groups[w[1]] = set() if w[5] == "-" else {p.split(":")[0] for p in w[5].split(",")}
+        elif w[0] == "capture" and im.startswith("F["):
+            n += 1
+            if i < len(model_lines) and model_lines[i] == im:
+                agree += 1
+            for tok in [t for t in im[2:-1].split(",") if t]:
+                idx, _, node = tok.partition(":")
+                if node not in groups.get(w[1], set()):
+                    if n_rep < max_reports:
+                        report(f"implementation violates `a reload leaves every non-empty group at least one selectable node`: "
+                               f"CaptureReloadSelectionFallback of group {w[1]} recorded `{tok}` (collection:node) at line {i + 1}, "
+                               f"which is not a member of the group {sorted(groups.get(w[1], []))} - the selection floor would revive "
+                               f"a node the group cannot select", {"clause": "reload fallback candidate", "line": i + 1, "op": op, "impl": im})
+                    n_rep += 1
+    return {"captures": n, "agree_with_model": agree}, n_rep
 
 
 def impl_oracles(op_lines, impl_lines, report, max_reports=5):
@@ -423,8 +464,9 @@ def run(ctx):
         "the latency oracle is circular by construction: the value handed to the model is what the real set recorded "
         "(dialerToLatency); a set reading the wrong statistic/collection is invisible here (C15's subject)",
         "kernel map: two generations sharing outbound ids on one real map with the real MarkRetired are tied (stream c16k) and modelled "
-        "(KWorld); the theorem relating a slot to the emptiness of the newest live group's set across steps is _partial; a generation "
-        "that is built and then abandoned (aborted reload) is the open finding c16-aborted-reload-leaves-init-bits",
+        "(KWorld, Props.kernel_map_follows_newest_live_group: a slot whose last writer is a live dial_mode-ip group holds that group's "
+        "state, for all histories); a generation that is built and then abandoned (aborted reload) is the open finding "
+        "c16-aborted-reload-leaves-init-bits",
         "compared state is projected (main_canon): dead-slot counters, NetworkType variant and cross-slot order of callbacks, "
         "slice order / sorting latency / identity of the best node are NOT compared (outside C16; C15 covers selection)",
     ]
@@ -438,7 +480,7 @@ def run(ctx):
         ctx.prove(["DaeVerif.C16.Props"], ["DaeVerif.C16.Props"], ["DaeVerif/C16/*.lean"], extra_targets=["c16drv"])
     ctx.required_theorems(REQUIRED)
 
-    binp = ctx.go_test_build(PKG, [PKG + "/c16_test.go", PKG + "/c16x_test.go"], "c16")
+    binp = ctx.go_test_build(PKG, [PKG + "/c16_test.go", PKG + "/c16x_test.go", PKG + "/c16p_test.go"], "c16")
     if not binp:
         return 2
     rc, out = ctx.run_harness(binp, "TestVerifC16")
@@ -460,6 +502,11 @@ def run(ctx):
 
     checked, _ = impl_oracles(op_lines, impl_lines, lambda what, obj: ctx.report(what, obj), max_reports=3)
     ctx.cov["implementation_side_oracles"] = checked
+    cap, _ = capture_oracle(op_lines, impl_lines, read_lines(model), lambda what, obj: ctx.report(what, obj))
+    ctx.cov["reload_fallback_capture"] = cap
+    if cap["captures"] and cap["agree_with_model"] < cap["captures"]:
+        ctx.say("NOTE: CaptureReloadSelectionFallback chose another member than Model.captureFallback in %d of %d captures "
+                "(allowed: any member; the model describes the current selection chain)" % (cap["captures"] - cap["agree_with_model"], cap["captures"]))
     for ln, op, im, mo in mism[:5]:
         if ln == 0:
             ctx.report(f"stream lengths differ: {op}", {"stream": "c16"})
@@ -474,6 +521,37 @@ def run(ctx):
     for op, im in zip(op_lines, impl_lines):
         if op == "crash" or im.startswith("crash:"):
             ctx.report(f"real code panicked: {im[:300]}", {"op": op, "impl": im})
+
+    # ---- the REAL probe loop (aliveBackground + pool + check + HttpCheck/DnsCheck) against a scripted endpoint
+    rc, out = ctx.run_harness(binp, "TestVerifC16Probe")
+    pops, pimpl, pmodel = (os.path.join(ctx.out, "c16p." + e) for e in ("ops", "impl", "model"))
+    if rc != 0 or not os.path.exists(pops):
+        ctx.say("HARNESS-FAILED (probe loop)", out[-3000:])
+        return 2
+    if not ctx.driver("c16drv", pops, pmodel):
+        ctx.proof_failures.append("model driver c16drv failed to run (probe-loop stream)")
+    pop_lines, pimpl_lines = read_lines(pops), read_lines(pimpl)
+    pchecked, _ = impl_oracles(pop_lines, pimpl_lines, lambda what, obj: ctx.report(what + " [probe-loop stream c16p]", obj), max_reports=3)
+    ctx.cov["implementation_side_oracles_probe_loop"] = pchecked
+    for ln, op, im, mo in ctx.diff_streams(pops, pimpl, pmodel, "c16p", canon=probe_canon)[:5]:
+        if ln == 0:
+            ctx.report(f"stream lengths differ: {op}", {"stream": "c16p"})
+            continue
+        fi, fm = _fields(probe_canon(im)), _fields(probe_canon(mo))
+        diff = [k for k in fi if fi.get(k) != fm.get(k)] or ["?"]
+        ctx.report(f"the real probe loop (aliveBackground -> check -> HttpCheck/DnsCheck) differs from the proved model at line {ln} "
+                   f"op `{op[:100]}` in {diff} (N nodes, T transitions, G group callbacks, S sets, K bits, H endpoint dials): "
+                   f"real {[fi.get(k) for k in diff]} model {[fm.get(k) for k in diff]}",
+                   {"stream": "c16p", "line": ln, "op": op, "impl": im, "model": mo,
+                    "replay": "VERIF_SEED=%d ./check C16 %s" % (ctx.seed, ctx.tier)})
+    for op, im in zip(pop_lines, pimpl_lines):
+        if op == "crash" or im.startswith("crash:"):
+            ctx.report(f"real code panicked in the probe-loop stream: {im[:300]}", {"op": op, "impl": im})
+    pstats = json.load(open(os.path.join(ctx.out, "c16p.stats.json")))
+    ctx.cov["probe_loop_side"] = pstats["counters"]
+    if pstats["counters"].get("unscripted_dials"):
+        ctx.report("the probe loop dialled an endpoint more often than the two attempts of Dialer.check allow, or an endpoint "
+                   "outside the probe table: %s" % pstats.get("samples"), {"stream": "c16p", "stats": pstats.get("samples")})
 
     # ---- concurrency probe (same test binary): racing reports, agreement at quiescence
     rc, out = ctx.run_harness(binp, "TestVerifC16Race")
@@ -586,7 +664,8 @@ def run(ctx):
     floors = {"escalation": 20, "gen.reload": 30, "gen.reload.shared": 5, "floor.marked": 20, "fail.ignorable": 50,
               "fail.suppressed": 500, "probe.nothing": 20, "streak.broken": 20,
               "death.probe.tcp": 50, "death.probe.udp": 50, "death.traffic.tcp": 5, "death.traffic.udp": 5,
-              "threshold.k-th=-1": 5, "threshold.k-th=+0": 5, "threshold.k-th=+1": 5, "threshold.k-th=+2": 5}
+              "threshold.k-th=-1": 5, "threshold.k-th=+0": 5, "threshold.k-th=+1": 5, "threshold.k-th=+2": 5,
+              "capture": 100, "capture.not_first_member": 10, "capture.none_for_some_type": 10}
     for tok in ("t4", "t6", "T4", "T6", "a4", "a6", "b4", "b6", "d4", "d6", "u4", "u6", "x4", "x6", "y4", "y6", "z4", "z6"):
         floors["typ." + tok] = 40
     low = {k: (c.get(k, 0), v) for k, v in floors.items() if c.get(k, 0) < v}
@@ -601,6 +680,13 @@ def run(ctx):
         low.update({"wiring." + k: (ws.get(k, 0), v) for k, v in wfloors.items() if ws.get(k, 0) < v})
         if sum(ws.get(k, 0) for k in ("mode.domain", "mode.domain+", "mode.domain++")) < 2:
             low["wiring.mode.domain*"] = (0, 2)
+    pc = ctx.cov.get("probe_loop_side", {})
+    pfloors = {"cycle.full": 100, "cycle.tcp": 30, "cycle.udp": 30, "cycle.death.tcp": 40, "cycle.death.udp": 15, "cycle.revival": 40,
+               "cycle.endpoint.skip": 50, "cycle.endpoint.err/ok": 50, "cycle.endpoint.cancel/-": 30, "cycle.endpoint.err/cancel": 30,
+               "cycle.endpoint.hang/err": 10, "cycle.endpoint.err/hang": 5, "activate.cold_start": 30, "cycle.nothing_dialled": 10,
+               "cycle.in_quiesce_window": 5, "streak.k-th=-1": 8, "streak.k-th=+0": 8, "streak.k-th=+1": 8, "streak.k-th=+2": 8}
+    if not os.environ.get("VERIF_C16_PROBE_SCENARIOS"):
+        low.update({"probe." + k: (pc.get(k, 0), v) for k, v in pfloors.items() if pc.get(k, 0) < v})
     if any(r["Rounds"] < 5000 for r in race.values()) and not os.environ.get("VERIF_C16_RACE_ROUNDS"):
         low["race.rounds"] = (min(r["Rounds"] for r in race.values()), 5000)
     ctx.cov["generator_floors"] = {"floors": floors, "below": low}
@@ -613,8 +699,10 @@ def run(ctx):
     ctx.assumptions += [
         "kernel-bit clause: the non-init callback writes only when the closure is built with dryrun=false, i.e. dial_mode: ip; the "
         "wiring region of NewControlPlane (dial-mode parse, that flag, outbound id = position, per-group clones, the alive-transition "
-        "registration loop) is executed verbatim (stream c16w); the rest of NewControlPlane, cmd/run.go's calls of "
-        "InheritDialerHealthFrom / MarkRetired, aliveBackground's probe table and the real DnsCheck are not executed",
+        "registration loop) is executed verbatim (stream c16w); the rest of NewControlPlane and cmd/run.go's calls of "
+        "InheritDialerHealthFrom / MarkRetired are not executed; aliveBackground (probe table, pool, check, HttpCheck, DnsCheck) "
+        "is executed in virtual time against a scripted endpoint with literal check addresses (stream c16p): name resolution of "
+        "the check targets, the periodic timer schedule and pool overload are not exercised",
         "histories are generated (seeded): 1-4 nodes per generation sharing 0-2 proxy addresses, 0-4 groups per generation "
         "(policies min_last/min_avg/min_moving/random/fixed), up to ~110 events per scenario, reload generations included",
     ]
@@ -624,4 +712,4 @@ def run(ctx):
              "transition callbacks per slot, group callbacks, set membership + best-node presence, positive address counts, "
              "suppression — see main_canon), is compared with the model; distinct_nontrivial = distinct "
              "(event kind, network type, attempt script, suppressed?, alive before/after, counter bucket) tuples seen",
-        evaluations=len(op_lines) + n_k, distinct=c.get("distinct", 0))
+        evaluations=len(op_lines) + n_k + len(pop_lines), distinct=c.get("distinct", 0) + pstats["counters"].get("distinct", 0))
